@@ -151,6 +151,40 @@ func parseBook(text string) (shared.DBNodeMap, error) {
 	return db, err
 }
 
+// LibStep is one library-level resolution as it was carried out in this process.
+type LibStep struct {
+	Text     string    `json:"text"`
+	MaxDepth int       `json:"maxdepth"`
+	Entry    string    `json:"entry"`
+	Plan     OrderPlan `json:"plan"`
+	Book     []Block   `json:"book,omitempty"` // set when the step is judged against the reference model
+}
+
+// callLog is the recent history of resolutions of this process (a ring). If an
+// outcome turns out to depend on what was resolved before - hidden state in the
+// code under test - the history, not the single case, is the replay unit.
+var callLog []LibStep
+
+const callLogCap = 300
+
+func logCall(st LibStep) {
+	if len(callLog) >= callLogCap {
+		callLog = append(callLog[:0], callLog[callLogCap/3:]...)
+	}
+	callLog = append(callLog, st)
+}
+
+// resolveText parses text and resolves it under plan, recording the step.
+func resolveText(text string, book []Block, maxDepth int, entry string, plan OrderPlan, ob *Obs) (shared.DBNodeMap, error, string) {
+	db, err := parseBook(text)
+	if err != nil {
+		panic(harnessFault{"generated book does not parse: " + err.Error()})
+	}
+	logCall(LibStep{Text: text, MaxDepth: maxDepth, Entry: entry, Plan: plan, Book: book})
+	rerr, pan := resolveUnder(db, maxDepth, entry, plan, ob)
+	return db, rerr, pan
+}
+
 // resolveUnder runs one of the two public entry points under a map-order schedule.
 func resolveUnder(db shared.DBNodeMap, maxDepth int, entry string, plan OrderPlan, ob *Obs) (err error, panicked string) {
 	w := noFaultWorld()
@@ -221,15 +255,19 @@ func schedulesFor(n, maxExhaustive int, seeds []uint64) (plans []OrderPlan, exha
 
 // CaseC01 : nested recipes resolve to the exact sum of products.
 type CaseC01 struct {
-	Book          []Block    `json:"book"`
-	MaxDepth      int        `json:"maxdepth"`
-	Exact         bool       `json:"exact"`
-	MaxExhaustive int        `json:"max_exhaustive"`
-	Seeds         []uint64   `json:"seeds"`
-	Layout        Layout     `json:"layout"`
-	CLI           bool       `json:"cli"` // also observe through `csv database-resolved`
-	Only          *OrderPlan `json:"only,omitempty"`
-	OnlyEntry     string     `json:"only_entry,omitempty"`
+	Book          []Block  `json:"book"`
+	MaxDepth      int      `json:"maxdepth"`
+	Exact         bool     `json:"exact"`
+	MaxExhaustive int      `json:"max_exhaustive"`
+	Seeds         []uint64 `json:"seeds"`
+	Layout        Layout   `json:"layout"`
+	CLI           bool     `json:"cli"` // also observe through `csv database-resolved`
+	// Prelude: another resolution carried out in the same process right before each one that is
+	// judged ("", "low-limit": the same book with limit 1, which fails; "cycle": the same book plus
+	// a self-referencing recipe, which fails). Outcomes must not depend on earlier resolutions.
+	Prelude   string     `json:"prelude,omitempty"`
+	Only      *OrderPlan `json:"only,omitempty"`
+	OnlyEntry string     `json:"only_entry,omitempty"`
 }
 
 func genC01(thorough bool) func(t *rapid.T) Case {
@@ -253,7 +291,19 @@ func genC01(thorough bool) func(t *rapid.T) Case {
 		c.Layout = genLayout(t, "layout")
 		c.Seeds = []uint64{rapid.Uint64().Draw(t, "s1"), rapid.Uint64().Draw(t, "s2"), rapid.Uint64().Draw(t, "s3")}
 		c.CLI = rapid.IntRange(0, 3).Draw(t, "cli") == 3
+		c.Prelude = rapid.SampledFrom([]string{"", "", "low-limit", "cycle"}).Draw(t, "prelude")
 		return c
+	}
+}
+
+// runPrelude resolves a failing variant of the book on its own map: only state
+// hidden in the process (not the book) can carry over to the next resolution.
+func runPrelude(kind, text string, maxDepth int, entry string, plan OrderPlan, ob *Obs) {
+	switch kind {
+	case "low-limit":
+		resolveText(text, nil, 1, entry, plan, ob)
+	case "cycle":
+		resolveText(text+"\nzz/loop:\n  zz/loop: 1\n", nil, maxDepth, entry, plan, ob)
 	}
 }
 
@@ -374,6 +424,7 @@ func (c *CaseC01) Eval(ob *Obs) []Finding {
 				c.Only, c.OnlyEntry = &p, entry
 				return append(out, Finding{sig + " entry=" + entry, fmt.Sprintf("order %s: %s", describePlan(plan), msg)})
 			}
+			runPrelude(c.Prelude, text, c.MaxDepth, entry, plan, ob)
 			rerr, pan := resolveUnder(db, c.MaxDepth, entry, plan, ob)
 			if len(m.order) >= 2 {
 				ob.nontrivial(fmt.Sprintf("%s/%s/%d", ch, entry, pi))
@@ -473,13 +524,17 @@ func (c *CaseC01) evalCLI(ob *Obs, m *refModel) []Finding {
 
 // CaseC11 : the depth limit rejects cycles, accepts legitimate nesting, order-free.
 type CaseC11 struct {
-	Book          []Block    `json:"book"`
-	MaxDepth      int        `json:"maxdepth"`
-	MaxExhaustive int        `json:"max_exhaustive"`
-	Seeds         []uint64   `json:"seeds"`
-	CLI           bool       `json:"cli"`
-	Only          *OrderPlan `json:"only,omitempty"`
-	OnlyEntry     string     `json:"only_entry,omitempty"`
+	Book          []Block  `json:"book"`
+	MaxDepth      int      `json:"maxdepth"`
+	MaxExhaustive int      `json:"max_exhaustive"`
+	Seeds         []uint64 `json:"seeds"`
+	CLI           bool     `json:"cli"`
+	Prelude       string   `json:"prelude,omitempty"` // see CaseC01.Prelude
+	// Seq, when set, makes the case a recorded history of resolutions of one process, replayed in
+	// order; every judged step must come out as the reference model says (see flakyCase).
+	Seq       []LibStep  `json:"seq,omitempty"`
+	Only      *OrderPlan `json:"only,omitempty"`
+	OnlyEntry string     `json:"only_entry,omitempty"`
 }
 
 func genC11(thorough bool) func(t *rapid.T) Case {
@@ -504,12 +559,42 @@ func genC11(thorough bool) func(t *rapid.T) Case {
 		c.Book = genBook(t, bo)
 		c.Seeds = []uint64{rapid.Uint64().Draw(t, "s1"), rapid.Uint64().Draw(t, "s2"), rapid.Uint64().Draw(t, "s3"), rapid.Uint64().Draw(t, "s4")}
 		c.CLI = rapid.IntRange(0, 3).Draw(t, "cli") == 3
+		c.Prelude = rapid.SampledFrom([]string{"", "", "low-limit", "cycle"}).Draw(t, "prelude")
 		return c
 	}
 }
 
+// flakyC11 turns "the same case gave two different outcomes in this process" into a
+// replayable case: the recent history of resolutions.
+func flakyC11() Case {
+	return &CaseC11{MaxDepth: 1, Seq: append([]LibStep{}, callLog...)}
+}
+
+func (c *CaseC11) evalSeq(ob *Obs) []Finding {
+	for i, st := range c.Seq {
+		db, err := parseBook(st.Text)
+		if err != nil {
+			continue
+		}
+		rerr, pan := resolveUnder(db, st.MaxDepth, st.Entry, st.Plan, ob)
+		if st.Book == nil {
+			continue
+		}
+		L := newRefModel(st.Book).chainLen()
+		wantErr := L == -1 || L >= st.MaxDepth
+		ob.nontrivial(fmt.Sprintf("seq/%d/%s", i, hashOf(st)))
+		if pan != "" || (rerr != nil) != wantErr {
+			return []Finding{{"C11 outcome-depends-on-earlier-resolutions", fmt.Sprintf("step %d of %d resolutions in one process: longest chain %d, limit %d, order %s: error=%v panic=%q, expected error=%v; the same book and schedule on their own come out right, so state survives from earlier resolutions", i+1, len(c.Seq), L, st.MaxDepth, describePlan(st.Plan), rerr, pan, wantErr)}}
+		}
+	}
+	return nil
+}
+
 // Eval checks "error iff some chain has N or more references" under every schedule.
 func (c *CaseC11) Eval(ob *Obs) []Finding {
+	if len(c.Seq) > 0 {
+		return c.evalSeq(ob)
+	}
 	m := newRefModel(c.Book)
 	L := m.chainLen()
 	wantErr := L == -1 || L >= c.MaxDepth
@@ -536,13 +621,13 @@ func (c *CaseC11) Eval(ob *Obs) []Finding {
 	var out []Finding
 	for _, entry := range entries {
 		for pi, plan := range plans {
-			db, err := parseBook(text)
-			if err != nil {
-				panic(harnessFault{"generated book does not parse: " + err.Error()})
-			}
-			rerr, pan := resolveUnder(db, c.MaxDepth, entry, plan, ob)
+			runPrelude(c.Prelude, text, c.MaxDepth, entry, plan, ob)
+			_, rerr, pan := resolveText(text, c.Book, c.MaxDepth, entry, plan, ob)
 			if len(m.order) >= 2 {
 				ob.nontrivial(fmt.Sprintf("%s/%s/%d", ch, entry, pi))
+			}
+			if c.Prelude != "" {
+				ob.probe("resolution_after_failed_resolution")
 			}
 			var f *Finding
 			chain := fmt.Sprint(L)
